@@ -13,7 +13,7 @@ if ! (cd "$W/repo" && git init -q . 2>/dev/null && git apply --whitespace=nowarn
 fi
 rc=0
 for P in "$@"; do
-  out=$(VERIF_REPO="$W/repo" VERIF_OUT="$W/out" "$HERE/check.sh" "$P" quick 2>&1)
+  out=$(VERIF_REPO="$W/repo" VERIF_OUT="$W/out" VERIF_NO_THOROUGH=1 "$HERE/check.sh" "$P" quick 2>&1)
   if echo "$out" | grep -q "^VIOLATION property=$P"; then
     echo "$P CAUGHT: $(echo "$out" | grep -E '^\s+(VIOLATED|UNDECIDED|FATAL)' | head -3 | tr '\n' ' ' | cut -c1-400)"
   else
